@@ -1,0 +1,64 @@
+"""
+Verification hook H2: guarded *yield points*.
+
+The library keeps its lazily-filled tables (generated load / dump functions,
+per-class field and alias tables, dump hook caches, JSON key caches, ...) in
+module-level dictionaries that are read and written during calls, without a
+lock. To let a cooperative, deterministic scheduler enumerate interleavings
+of several threads at exactly the points where those shared tables are
+accessed, the code calls ``yp('<name>')`` at such points.
+
+``yp`` is a no-op unless BOTH hold:
+
+  * the environment variable ``DATACLASS_WIZARD_VERIF=1`` was set when this
+    module was first imported, and
+  * a callback has been installed with :func:`set_callback`.
+
+Nothing here changes the behaviour of the library; with the guard off,
+:func:`set_callback` refuses to install anything.
+"""
+import os as _os
+
+ENABLED = _os.environ.get('DATACLASS_WIZARD_VERIF') == '1'
+
+# names of all yield points compiled into this tree (checked by the verifier,
+# so that a missing hook is detected and reported rather than silently
+# exploring no interleavings).
+POINTS = (
+    'fields.miss',
+    'defaults.miss', 'defaults.registered', 'defaults.fill',
+    'load_cfg.begin', 'load_cfg.field', 'load_cfg.store',
+    'dump_cfg.begin', 'dump_cfg.paths_read', 'dump_cfg.field', 'dump_cfg.flag',
+    'v1_cfg.begin', 'v1_cfg.paths_read', 'v1_cfg.field', 'v1_cfg.flag',
+    'loader.miss', 'dumper.miss',
+    'load.miss', 'load.gen', 'load.setattr', 'load.store',
+    'v1_load.gen', 'v1_load.aliases_read', 'v1_load.setattr', 'v1_load.store',
+    'dump.miss', 'dump.gen', 'dump.cfg_done', 'dump.setattr', 'dump.store',
+    'hook_scan.begin', 'hook_scan.iter', 'hook_scan.store',
+    'key_cache.miss', 'key_cache.store',
+    'env.load_environ', 'env.var_names', 'env.cleaned',
+)
+
+_callback = None
+
+
+def set_callback(fn):
+    """Install (or, with ``None``, remove) the scheduler callback.
+
+    Ignored unless the guard variable was set at import time."""
+    global _callback
+    _callback = fn if ENABLED else None
+
+
+def active():
+    """True when a callback is installed (used where a yield point has to be
+    emitted into *generated* code, so that the generated source is unchanged
+    unless a scheduler is really attached)."""
+    return _callback is not None
+
+
+def yp(name):
+    """Yield point: hand control to the scheduler callback, if any."""
+    cb = _callback
+    if cb is not None:
+        cb(name)
